@@ -780,3 +780,177 @@ Proof.
   - apply (read_mesh_tris_proof a fps ip ct lt T).
   - unfold render_header. apply header_noise_ignored_proof; [discriminate|exact W].
 Qed.
+
+(* ================= triangle meshes with per-corner texture coordinates ================= *)
+Definition texmesh_ok (a : absfile) (fps : fprops) (ip tk : nat) (ct lt ctt ltt : sty) : Prop :=
+  a_fprops a = Some fps /\ a_vprops a <> [] /\ NoDup (names (a_vprops a)) /\ supported (a_vprops a) /\
+  Forall (record_ok (a_vprops a)) (a_verts a) /\
+  Forall (raw_free (a_fmt a)) (spec_entries default_groups (a_vprops a)) /\
+  Forall (fun p => lower (snd p) = snd p) fps /\
+  last_index is_indices (lists_of fps) 0 None = Some ip /\
+  last_index is_texcoord (lists_of fps) 0 None = Some tk /\
+  nth_error (rs_of fps) ip = Some (ct, lt) /\ index_ty_ok lt = true /\
+  nth_error (rs_of fps) tk = Some (ctt, ltt) /\ (ltt = Float \/ ltt = Double) /\
+  Forall (tex_face_ok (rs_of fps) ip tk) (a_faces a) /\
+  Forall (fun f => Forall (fun w => w < 2 ^ 31) (nth ip f [])) (a_faces a).
+
+Lemma fan_lengths (ws : list Z) (ts : list N) :
+  (length ws = 3%nat /\ length ts = 6%nat) \/ (length ws = 4%nat /\ length ts = 8%nat) ->
+  length (fan (pairs ts) []) = length (fan_tris ws).
+Proof.
+  intros [[L1 L2]|[L1 L2]].
+  - destruct ws as [|a [|b [|c [|? ?]]]]; try discriminate L1.
+    destruct ts as [|t0 [|t1 [|t2 [|t3 [|t4 [|t5 [|? ?]]]]]]]; try discriminate L2. reflexivity.
+  - destruct ws as [|a [|b [|c [|d [|? ?]]]]]; try discriminate L1.
+    destruct ts as [|t0 [|t1 [|t2 [|t3 [|t4 [|t5 [|t6 [|t7 [|? ?]]]]]]]]]; try discriminate L2. reflexivity.
+Qed.
+
+Theorem read_body_tex_proof : forall a fps ip tk ct lt ctt ltt, texmesh_ok a fps ip tk ct lt ctt ltt ->
+  read_body default_groups true (header_of a) (enc_body a) = describe a.
+Proof.
+  intros [fm ps verts fp faces] fps ip tk ct lt ctt ltt
+         [Hfp [NE [ND [S [R [Raw [Low [Hip [Htp [Nip [Ity [Ntk [Flt [Fok Small]]]]]]]]]]]]]].
+  cbn [a_fprops a_faces a_vprops a_verts a_fmt] in *. subst fp.
+  destruct (build_readers_agree fm default_groups ps ND S default_groups_wf Raw) as [bs [B F]].
+  destruct (rows_exist fm ps bs _ verts F R) as [rows M].
+  pose proof (attrs_agree fm ps bs verts rows M R bs _ F 0%nat [] (fun i b H => H)) as D.
+  rewrite <- describe_attrs_entries in D.
+  set (idx := flat_map (fun f => fan_tris (map signed32 (nth ip f []))) faces).
+  set (uvs := flat_map (fun f => fan (pairs (map (tex_value ltt) (nth tk f []))) []) faces).
+  assert (Hlt : forall j c l, nth_error (rs_of fps) j = Some (c, l) ->
+                match nth_error fps j with Some (_, l0, _) => l0 | None => Int end = l).
+  { intros j c l Hj. unfold rs_of in Hj. rewrite nth_error_map in Hj. destruct (nth_error fps j) as [[[c0 l0] n]|]; [|discriminate].
+    cbn in Hj. congruence. }
+  assert (Len : length uvs = length idx).
+  { unfold uvs, idx. clear - Fok. induction Fok as [|f fs [_ L34] Fok IH]; [reflexivity|].
+    cbn [flat_map]. rewrite !app_length, IH. f_equal. apply fan_lengths. rewrite !map_length. exact L34. }
+  set (final := if negb (Nat.eqb (length uvs) 0)
+                then dor ua <- unweld_attrs (update_mesh bs 0 rows []) idx;
+                     Ok {| m_topo := TTriangle; m_idx := iota (length idx); m_attrs := set_attr 2 "TexCoord" uvs ua |}
+                else Ok {| m_topo := TTriangle; m_idx := idx; m_attrs := update_mesh bs 0 rows [] |}).
+  assert (Hd : describe {| a_fmt := fm; a_vprops := ps; a_verts := verts; a_fprops := Some fps; a_faces := faces |} = final).
+  { unfold describe. cbn [a_vprops a_verts a_fprops a_faces]. rewrite D. cbn [rbind].
+    fold (lists_of fps). rewrite Hip, Htp. cbn [of_opt rbind]. rewrite (Hlt ip ct lt Nip), (Hlt tk ctt ltt Ntk). reflexivity. }
+  rewrite Hd.
+  assert (Hfin : forall ix uv, ix = idx -> uv = uvs ->
+            (if negb (Nat.eqb (length uv) 0) && Nat.eqb (length uv) (length ix)
+             then dor ua <- unweld_attrs (update_mesh bs 0 rows []) ix;
+                  Ok {| m_topo := TTriangle; m_idx := iota (length ix); m_attrs := set_attr 2 "TexCoord" uv ua |}
+             else Ok {| m_topo := TTriangle; m_idx := ix; m_attrs := update_mesh bs 0 rows [] |}) = final).
+  { intros ix uv -> ->. unfold final. rewrite Len, Nat.eqb_refl, andb_true_r. reflexivity. }
+  unfold read_body, header_of. cbn [a_fmt a_vprops a_verts a_fprops a_faces h_elems h_fmt].
+  simpl (find_last_elem "vertex" _ None). simpl (find_last_elem "face" _ None).
+  cbn [of_opt rbind e_props e_count]. fold (scalars ps). rewrite all_scalar_scalars. cbn [negb].
+  replace (Z.of_nat (length verts) <? 0)%Z with false by (symmetry; apply Z.ltb_ge; lia).
+  rewrite !Nat2Z.id. unfold enc_body. cbn [a_fmt a_vprops a_verts a_faces fprops_of a_fprops].
+  assert (Fs : face_setup {| e_name := "face"; e_count := Z.of_nat (length faces); e_props := lists_of fps |} = Ok (rs_of fps, ip, Some tk)).
+  { unfold face_setup. cbn [e_props]. rewrite list_props_lists. cbn [rbind]. rewrite Hip, Htp. reflexivity. }
+  fold (lists_of fps).
+  destruct fm; cbn [is_bin] in B; rewrite B; cbn [rbind].
+  - destruct (vertex_i_is_record_i_ascii_proof ps verts bs
+                (map (fun f => flat_map (fun '((_, lt0, _), ws) => enc_list_ascii lt0 ws) (combine fps f)) faces) rows NE) as [Rd _].
+    { apply Forall_forall. intros rec Ir. rewrite Forall_forall in R. apply record_ok_length, R, Ir. }
+    { exact M. }
+    unfold encode_vertices_ascii in Rd. unfold scalars at 1. rewrite map_length. rewrite Rd. cbn [rbind].
+    rewrite Fs. cbn [rbind].
+    rewrite (map_ext _ (enc_face_ascii (rs_of fps)) (enc_face_ascii_fps fps)).
+    rewrite (quad_fan_tex_ascii_proof (rs_of fps) ip tk ct lt ctt ltt faces fstate0); try assumption; try reflexivity.
+    + cbn [rbind]. apply Hfin; reflexivity.
+    + intros E. rewrite E in Nip. destruct ip; discriminate.
+    + apply Forall_forall. intros f If. rewrite Forall_forall in Fok, Small. destruct (Fok f If) as [F2 L34].
+      split; [eapply Forall2_length'; exact F2|]. split; [exact L34|apply Small, If].
+  - destruct (vertex_i_is_record_i_bin_proof LEnd ps verts bs
+                (flat_map (fun f => flat_map (fun '((ct0, lt0, _), ws) => enc_list_bin LEnd ct0 lt0 ws) (combine fps f)) faces) rows R M) as [Rd _].
+    unfold encode_vertices_bin in Rd. rewrite Rd. cbn [rbind]. rewrite Fs. cbn [rbind].
+    rewrite (flat_map_ext_in' _ (enc_face_bin LEnd (rs_of fps)) faces (fun f _ => enc_face_bin_fps LEnd fps f)).
+    rewrite <- (app_nil_r (flat_map (enc_face_bin LEnd (rs_of fps)) faces)).
+    rewrite (quad_fan_tex_bin_proof LEnd (rs_of fps) ip tk ct lt ctt ltt faces [] fstate0 Nip Ity Ntk Flt eq_refl eq_refl Fok).
+    cbn [rbind]. apply Hfin; reflexivity.
+  - destruct (vertex_i_is_record_i_bin_proof BEnd ps verts bs
+                (flat_map (fun f => flat_map (fun '((ct0, lt0, _), ws) => enc_list_bin BEnd ct0 lt0 ws) (combine fps f)) faces) rows R M) as [Rd _].
+    unfold encode_vertices_bin in Rd. rewrite Rd. cbn [rbind]. rewrite Fs. cbn [rbind].
+    rewrite (flat_map_ext_in' _ (enc_face_bin BEnd (rs_of fps)) faces (fun f _ => enc_face_bin_fps BEnd fps f)).
+    rewrite <- (app_nil_r (flat_map (enc_face_bin BEnd (rs_of fps)) faces)).
+    rewrite (quad_fan_tex_bin_proof BEnd (rs_of fps) ip tk ct lt ctt ltt faces [] fstate0 Nip Ity Ntk Flt eq_refl eq_refl Fok).
+    cbn [rbind]. apply Hfin; reflexivity.
+Qed.
+
+Theorem read_mesh_tex_proof : forall a fps ip tk ct lt ctt ltt, texmesh_ok a fps ip tk ct lt ctt ltt ->
+  read_mesh (encode a) = describe a.
+Proof.
+  intros a fps ip tk ct lt ctt ltt T. unfold read_mesh, encode. cbn [pf_header pf_body].
+  rewrite parse_render_header_proof; [|eapply header_of_tris_good; apply T|reflexivity].
+  cbn [rbind]. eapply read_body_tex_proof, T.
+Qed.
+
+Theorem read_mesh_tex_noisy_proof : forall a fps ip tk ct lt ctt ltt noisy, texmesh_ok a fps ip tk ct lt ctt ltt ->
+  with_noise (header_body (header_of a)) noisy ->
+  read_mesh {| pf_header := ["ply"%string] :: ["format"%string; fmt_name (a_fmt a); "1.0"%string] :: noisy; pf_body := enc_body a |}
+  = describe a.
+Proof.
+  intros a fps ip tk ct lt ctt ltt noisy T W.
+  rewrite (read_mesh_ext _ (render_header (header_of a)) (enc_body a)).
+  - apply (read_mesh_tex_proof a fps ip tk ct lt ctt ltt T).
+  - unfold render_header. apply header_noise_ignored_proof; [discriminate|exact W].
+Qed.
+
+(* ---- such a file loads without error when its faces name existing vertices ---- *)
+Definition attrs_len (n : nat) (l : list attr) : Prop := Forall (fun a : attr => length (snd a) = n) l.
+
+Lemma set_attr_len n d nm data l : attrs_len n l -> length data = n -> attrs_len n (set_attr d nm data l).
+Proof.
+  intros A L. unfold set_attr, attrs_len in *.
+  assert (Fl : Forall (fun a : attr => length (snd a) = n) (filter (fun a => negb (key_eqb d nm a)) l)).
+  { apply Forall_forall. intros x Ix. apply filter_In in Ix. rewrite Forall_forall in A. apply A, Ix. }
+  destruct data; [exact Fl|]. apply Forall_app. split; [exact Fl|]. constructor; [exact L|constructor].
+Qed.
+Lemma update_mesh_len rows : forall bs j l, attrs_len (length rows) l -> attrs_len (length rows) (update_mesh bs j rows l).
+Proof.
+  induction bs as [|b bs IH]; intros j l A; [exact A|]. cbn [update_mesh]. apply IH, set_attr_len; [exact A|].
+  unfold column. apply map_length.
+Qed.
+Lemma gather_ok {A} (data : list A) idx : Forall (fun i => (0 <= i < Z.of_nat (length data))%Z) idx ->
+  exists g, gather data idx = Ok g.
+Proof.
+  intros F. unfold gather. apply mapR_ok_all. intros i Ii. rewrite Forall_forall in F. specialize (F i Ii).
+  replace (i <? 0)%Z with false by (symmetry; apply Z.ltb_ge; lia).
+  destruct (nth_error data (Z.to_nat i)) as [x|] eqn:E; [exists x; reflexivity|]. apply nth_error_None in E. lia.
+Qed.
+Lemma unweld_ok n l idx : attrs_len n l -> Forall (fun i => (0 <= i < Z.of_nat n)%Z) idx ->
+  exists ua, unweld_attrs l idx = Ok ua.
+Proof.
+  intros A F. unfold unweld_attrs. apply mapR_ok_all. intros [[d nm] data] Ia.
+  unfold attrs_len in A. rewrite Forall_forall in A. specialize (A _ Ia). cbn [snd] in A.
+  destruct (gather_ok data idx) as [g Hg]; [rewrite A; exact F|]. rewrite Hg. eexists. reflexivity.
+Qed.
+Lemma fan_tris_in x l : In x (fan_tris l) -> In x l.
+Proof.
+  unfold fan_tris, fan. destruct l as [|a [|b [|c [|d [|? ?]]]]]; cbn; intros H; try contradiction; intuition.
+Qed.
+
+Theorem texmesh_loads_proof : forall a fps ip tk ct lt ctt ltt, texmesh_ok a fps ip tk ct lt ctt ltt ->
+  Forall (fun f => Forall (fun w => w < N.of_nat (length (a_verts a))) (nth ip f [])) (a_faces a) ->
+  exists m, describe a = Ok m.
+Proof.
+  intros [fm ps verts fp faces] fps ip tk ct lt ctt ltt
+         [Hfp [NE [ND [S [R [Raw [Low [Hip [Htp [Nip [Ity [Ntk [Flt [Fok Small]]]]]]]]]]]]]] InR.
+  cbn [a_fprops a_faces a_vprops a_verts a_fmt] in *. subst fp.
+  destruct (build_readers_agree fm default_groups ps ND S default_groups_wf Raw) as [bs [B F]].
+  destruct (rows_exist fm ps bs _ verts F R) as [rows M].
+  pose proof (attrs_agree fm ps bs verts rows M R bs _ F 0%nat [] (fun i b H => H)) as D.
+  rewrite <- describe_attrs_entries in D.
+  pose proof (mapR_length _ _ _ M) as Lr.
+  unfold describe. cbn [a_vprops a_verts a_fprops a_faces]. rewrite D. cbn [rbind].
+  fold (lists_of fps). rewrite Hip, Htp. cbn [of_opt rbind].
+  match goal with |- context [if ?c then _ else _] => destruct c end; [|eexists; reflexivity].
+  match goal with |- context [unweld_attrs ?l ?i] => destruct (unweld_ok (length rows) l i) as [ua Hu] end.
+  - apply update_mesh_len. constructor.
+  - apply Forall_forall. intros i Ii. apply in_flat_map in Ii. destruct Ii as [f [If Ii]].
+    apply fan_tris_in in Ii. apply in_map_iff in Ii. destruct Ii as [w [<- Iw]].
+    assert (Hlt : match nth_error fps ip with Some (_, l0, _) => l0 | None => Int end = lt).
+    { unfold rs_of in Nip. rewrite nth_error_map in Nip. destruct (nth_error fps ip) as [[[c0 l0] n]|]; [|discriminate]. cbn in Nip. congruence. }
+    rewrite Forall_forall in InR, Small. pose proof (InR f If) as H1. pose proof (Small f If) as H2.
+    rewrite Forall_forall in H1, H2. specialize (H1 w Iw). specialize (H2 w Iw).
+    unfold idx_value. rewrite (signed32_small w H2). rewrite Lr. lia.
+  - rewrite Hu. eexists. reflexivity.
+Qed.
